@@ -412,6 +412,16 @@ struct Resolver {
     file_to_namespace: HashMap<FileOrLib, NamespaceID>,
 }
 
+/// A function literal, possibly inside redundant parentheses. A local definition
+/// of one may refer to itself.
+fn is_function_literal(expr: &ParserExpression) -> bool {
+    match &expr.kind {
+        sylt_parser::ExpressionKind::Function { .. } => true,
+        sylt_parser::ExpressionKind::Parenthesis(inner) => is_function_literal(inner),
+        _ => false,
+    }
+}
+
 impl Resolver {
     fn new(namespace_to_file: HashMap<NamespaceID, FileOrLib>) -> Self {
         let file_to_namespace = namespace_to_file
@@ -665,8 +675,9 @@ impl Resolver {
                 E::Call { function, args, span }
             }
             AK::ArrowCall(extra_arg, function, parser_args) => {
-                let extra_arg = self.expression(extra_arg)?;
+                // Resolved in the same order as `function(extra_arg, ..)`.
                 let function = Box::new(self.assignable(function)?);
+                let extra_arg = self.expression(extra_arg)?;
                 let mut args = vec![extra_arg];
                 for arg in parser_args.iter() {
                     args.push(self.expression(arg)?);
@@ -951,7 +962,7 @@ impl Resolver {
                     self.stack.clear();
                     let var = self.lookup(&ident.name, span)?;
                     (value, var)
-                } else if matches!(value.kind, sylt_parser::ExpressionKind::Function { .. }) {
+                } else if is_function_literal(value) {
                     // Function, push the var before!
                     let var = self.push_var(ident, *kind);
                     let value = self.expression(value)?;
